@@ -98,7 +98,7 @@ class Run:
 
 
 def build(config, history, comps, out_len, estimator=None, grid=None, operation=None, tol=0.5, perform=True,
-          vectorized=None, perform_kwargs=None):
+          vectorized=None, perform_kwargs=None, sa_kwargs=None):
     """Construct fresh real objects for `config`, run the real adaptive loop along `history`.
     comps: callable x -> list of out_len floats (component 0 conventionally 'drives', with the scripted
     estimator it is irrelevant).  Returns a Run with sa, op, eo, snaps [(before, after)], result."""
@@ -114,7 +114,7 @@ def build(config, history, comps, out_len, estimator=None, grid=None, operation=
         op = Integration(f, grid=grid, dim=d, reference_solution=None)
     else:
         op = operation
-    kw = {}
+    kw = dict(sa_kwargs or {})
     if config.get("margin") is not None:
         kw["margin"] = config["margin"]
     sa = SA(a, b, version=config.get("version", 6), operation=op, rebalancing=config.get("rebalancing", True),
